@@ -18,7 +18,7 @@ echo "suite with change: $suite   (unchanged tree: 57+9 doc = 66 passed 0 failed
 with=$(cargo test -p $pkg --offline --test seed_demo 2>&1 | grep -E "^test result" | tail -1)
 echo "demo WITH change:    $with"
 # (3) demo without change
-git stash push -q -- $files
+git diff -- $files > $wt/.confirm_change.diff; git apply -R $wt/.confirm_change.diff   # (not git stash: the stash stack is shared between worktrees)
 without=$(cargo test -p $pkg --offline --test seed_demo 2>&1 | grep -E "^test result" | tail -1)
-git stash pop -q
+git apply $wt/.confirm_change.diff; rm -f $wt/.confirm_change.diff
 echo "demo WITHOUT change: $without"
